@@ -30,6 +30,7 @@ CPLX = z3.DeclareSort('Cplx')
 CA1 = z3.ArraySort(I, CPLX)
 CA2 = z3.ArraySort(I, CA1)
 cmul = z3.Function('cmul', CPLX, CPLX, CPLX)
+cneg = z3.Function('cneg', CPLX, CPLX)
 
 _counter = itertools.count()
 
@@ -674,6 +675,8 @@ class SpecEval(object):
                           z3.ForAll([k], z3.Implies(z3.And(0 <= k, k < a.shape[0]), a.term[k] == b.term[k])))
         if f == 'cmul':
             return cmul(args[0], args[1])
+        if f == 'cneg':
+            return cneg(args[0])
         if f == 'cplx_one':
             return z3.Const('cplx_one', CPLX)
         if f == 'min':
